@@ -122,13 +122,13 @@ def impl(case):
             if all(float(v).is_integer() for v in data):
                 darr = darr.astype("int64" if len(data) % 2 else "int16")      # elevations / counts: the reduction must not be truncated
             g = vd.KNeighbors(k=k, reduction=REDS[red]).fit((np.array(es), np.array(ns)), darr)
-            r = g.predict((C.mkarr(qe, shape2d, case["op"]), C.mkarr(qn, shape2d, case["op"])))
+            r = g.predict((C.mkarr(qe, shape2d, "qe:" + case["op"]), C.mkarr(qn, shape2d, "qn:" + case["op"])))
             if list(r.shape) != list(shape2d):
                 raise RuntimeError("wrong output shape")
             return r.ravel().tolist()
         if fn == "md":
             es, ns, k, shape2d = a
-            r = vd.median_distance((C.mkarr(es, shape2d, case["op"]), C.mkarr(ns, shape2d, case["op"])), k_nearest=k)
+            r = vd.median_distance((C.mkarr(es, shape2d, "es:" + case["op"]), C.mkarr(ns, shape2d, "ns:" + case["op"])), k_nearest=k)
             if list(r.shape) != list(shape2d):
                 raise RuntimeError("wrong output shape")
             return r.ravel().tolist()
@@ -136,7 +136,7 @@ def impl(case):
             es, ns, maxdist, qe, qn, shape2d, proj, grid = a
             f = None if proj is None else PROJS[proj[0]](proj[1])
             dc = (np.array(es), np.array(ns))
-            arr = vd.distance_mask(dc, maxdist, coordinates=(C.mkarr(qe, shape2d, case["op"]), C.mkarr(qn, shape2d, case["op"])), projection=f)
+            arr = vd.distance_mask(dc, maxdist, coordinates=(C.mkarr(qe, shape2d, "qe:" + case["op"]), C.mkarr(qn, shape2d, "qn:" + case["op"])), projection=f)
             if list(arr.shape) != list(shape2d) or arr.dtype != bool:
                 raise RuntimeError("wrong output shape/dtype")
             if grid is not None:
